@@ -125,6 +125,24 @@ CORPUS = [
     ('31', 'array:sort($r)'), ('31', 'sort($q)'), ('31', 'serialize($m, map{"method": "json"})'), ('31', 'serialize($r, map{"method": "json"})'),
     ('31', 'array:for-each($r, function($x) { $x })'), ('31', 'array:fold-left($r, 0, function($a, $x) { $a })'),
     ('31', 'map{"k": $q}?k'), ('31', '[$q, $i]'), ('31', '$m("a")'), ('31', '$r(1)'), ('31', 'apply($f, [$i])'),
+    # stored sequences reached by reference (map entries, array members, variables) as operands of the comma operator
+    ('31', '($m("b"), 9)'), ('31', '(($m("b"), 9), $m("b"))'), ('31', 'count(($r(3), 0))'), ('31', '(array:get($r, 3), 1)'),
+    ('31', '(map:get($m, "b"), 1)'), ('31', '($m?b, 1)'), ('31', '($r?3, 1)'), ('31', '(array:head($r), 1)'),
+    ('31', "let $n := map{'a': (1, 2)} return (($n('a'), 3), $n('a'))"), ('2', '($q, 1)'), ('2', '(($q, 1), $q)'),
+    ('31', "let $n := [(1, 2), 5] return (count((array:get($n, 1), 3)), array:get($n, 1))"), ('31', '($m("b"), $m("b"))'),
+    ('31', 'insert-before($m("b"), 1, 0)'), ('31', 'reverse(($m("b"), $r(3)))'), ('3', '(function() { $q }(), 1)'),
+    ('31', '(map:for-each($m, function($k, $v) { $v }), 1)'), ('31', '($m?*, 0)'), ('31', '(array:flatten($r), 0)'),
+    # named function references to context-dependent functions: the focus is the one of each evaluation
+    ('3', '/*/*[1] ! name#0()'), ('3', 'for $f in (/*/* ! name#0) return $f()'), ('3', 'count(root#0() | /)'),
+    ('3', '/*/*[1] ! string#0()'), ('3', '//a ! (position#0)()'), ('3', '//a ! (last#0)()'), ('3', '(//a ! string#0) ! .()'),
+    ('3', 'for-each(//a, name#1)'), ('3', 'let $f := name#0 return //a ! $f()'), ('3', '(//c ! number#0) ! .()'),
+    ('3', '/* ! local-name#0()'), ('3', "/*/* ! (function-lookup(xs:QName('fn:name'), 0))()"), ('3', '(//a ! data#0)[last()]()'),
+    ('3', '//a ! (generate-id#0() = generate-id(.))'), ('3', '/*/*[last()] ! path#0()'), ('3', '(//@n ! node-name#0) ! .()'),
+    ('3', '//a ! has-children#0()'), ('3', '//a ! normalize-space#0()'), ('3', '//a ! string-length#0()'),
+    ('3', '//d ! lang#1("en")'), ('3', 'current-dateTime#0() eq current-dateTime()'), ('3', 'implicit-timezone#0()'),
+    ('3', '/*/*[2] ! (namespace-uri#0(), local-name#0(), name#0) ! (if (. instance of function(*)) then .() else .)'),
+    ('3', 'for $n in //a return ($n ! number#0)() + 0'), ('3', 'let $g := (//a)[1] ! root#0 return count($g() | /)'),
+    ('31', "apply(name#0, []) = name()"), ('31', '/*/*[1] ! (name#0 => apply([]))'),
     ('31', 'json-to-xml(\'{"a": [1, 2]}\')//*:number/string()'), ('31', "parse-json('[1, {\"a\": null}]')"),
 ]
 
